@@ -518,6 +518,55 @@ fn primitives_long(run: &mut Run) -> u64 {
     n
 }
 
+/// Parents as long as a vector can be: genes of a zero-sized type cost nothing.  Two-point crossover of two
+/// such parents of equal length returns a child of that length on every stream over the extended grid
+/// (including the words that put a cut point at either end); parents of different such lengths are an error.
+fn unit_genomes(run: &mut Run) -> u64 {
+    let unit = |n: usize| -> Vec<()> {
+        let mut v: Vec<()> = Vec::new();
+        unsafe { v.set_len(n) };
+        v
+    };
+    let mut count = 0u64;
+    for n in [usize::MAX, usize::MAX - 1, 1usize << 63, (1 << 32) + 1, 1 << 32] {
+        for (form, other) in [("array", n), ("tuple", n), ("array", n - 1)] {
+            let mut bad: Option<String> = None;
+            let st = explore(
+                |env| {
+                    env.horizon = 4;
+                    let mut rng = ChoiceRng::new(env, Alphabet::Ext(2));
+                    mcx::guarded(|| {
+                        if form == "array" {
+                            TwoPointXo.recombine([unit(n), unit(other)], &mut rng).map(|c| c.len()).map_err(|e| format!("{e:?}"))
+                        } else {
+                            TwoPointXo.recombine((unit(n), unit(other)), &mut rng).map(|c| c.len()).map_err(|e| format!("{e:?}"))
+                        }
+                    })
+                },
+                |t, _, r| {
+                    let what = match r {
+                        Err(p) => Some(format!("panicked: {p}")),
+                        Ok(Ok(l)) if other != n => Some(format!("returned a child of length {l} for parents of different lengths")),
+                        Ok(Ok(l)) if l != n => Some(format!("returned a child of length {l}")),
+                        Ok(Err(e)) if other == n => Some(format!("reported {e} for parents of equal length")),
+                        _ => None,
+                    };
+                    if let (Some(w), true) = (what, bad.is_none()) {
+                        bad = Some(format!("word choices {:?}: {w}", t.iter().map(|c| c.pick).collect::<Vec<_>>()));
+                    }
+                },
+                10_000,
+            );
+            count += st.leaves;
+            if let Some(w) = bad {
+                run.violation("two_point_xo/unit-genes".to_string(), format!("TwoPointXo on {form} parents of {n} and {other} zero-sized genes: {w}"), json!({"check":"C10","scenario":"unit","n":n.to_string()}));
+            }
+        }
+    }
+    run.bound("unit_gene_parent_lengths", json!(["usize::MAX", "usize::MAX - 1", "2^63", "2^32 + 1", "2^32"]));
+    count
+}
+
 pub fn run(run: &mut Run) {
     if let Err(e) = mcx::rng::calibrate() {
         run.machinery(format!("calibration failed: {e}"));
@@ -582,7 +631,7 @@ pub fn run(run: &mut Run) {
     }
     run.bound("long_lengths", json!(long_lengths(quick)));
     run.bound("long_uniform_deviation_bound", json!(if quick { "1" } else { "2 up to 130 genes, 1 beyond" }));
-    let p = primitives(run) + primitives_long(run);
+    let p = primitives(run) + primitives_long(run) + unit_genomes(run);
     run.evaluations += p;
     run.transitions += p;
     run.states = cases.len() as u64 + p;
@@ -600,6 +649,15 @@ pub fn replay(v: &Value) -> bool {
     let l1 = v["l1"].as_u64().unwrap_or(0) as usize;
     let l2 = v["l2"].as_u64().unwrap_or(0) as usize;
     match v["scenario"].as_str() {
+        Some("unit") => {
+            let mut r = Run::new("C10", "quick");
+            unit_genomes(&mut r);
+            let g = r.violations.lock().unwrap();
+            for (k, x) in g.iter() {
+                println!("MISMATCH [{k}]: {}", x.what);
+            }
+            g.is_empty()
+        }
         Some("long") => {
             let tp = v["two_point"].as_bool().unwrap_or(true);
             let f = FLAVOURS.iter().copied().find(|f| Some(format!("{f:?}").as_str()) == v["flavour"].as_str()).unwrap_or(Flavour::VecArr);
